@@ -54,6 +54,8 @@ pub struct World<'a> {
     by_identity: BTreeMap<(String, String), usize>,
     counter: u64,
     root: Option<usize>,
+    /// every object gets a fresh id (no entity is reached along two paths)
+    pub unique_ids: bool,
     pub stats: RespStats,
 }
 
@@ -66,7 +68,7 @@ fn unwrap_non_null(t: &Type) -> (&Type, bool) {
 
 impl<'a> World<'a> {
     pub fn new(schema: &'a Schema, tape: Vec<u16>) -> World<'a> {
-        World { schema, tape: Tape::new(tape), variables: Map::new(), entities: vec![], by_identity: BTreeMap::new(), counter: 0, root: None, stats: RespStats::default() }
+        World { schema, tape: Tape::new(tape), variables: Map::new(), entities: vec![], by_identity: BTreeMap::new(), counter: 0, root: None, unique_ids: false, stats: RespStats::default() }
     }
 
     // ---- variables ---------------------------------------------------------------------------
@@ -189,7 +191,13 @@ impl<'a> World<'a> {
         let has_id = self.schema.get_type(type_name).is_some_and(|t| t.field("id").is_some());
         if has_id {
             // small pool per type: the same entity is reached along several paths
-            let id = format!("{}", self.tape.choose(3));
+            let picked = self.tape.choose(3);
+            let id = if self.unique_ids {
+                self.counter += 1;
+                format!("u{}", self.counter)
+            } else {
+                format!("{picked}")
+            };
             let key = (type_name.to_string(), id.clone());
             if let Some(&e) = self.by_identity.get(&key) {
                 self.stats.entity_revisits += 1;
@@ -339,7 +347,7 @@ impl<'a> World<'a> {
 }
 
 /// Parse the cooked operation, generate variables and a conforming response.
-pub fn generate(schema: &Schema, operation_text: &str, tape: Vec<u16>) -> Result<(OperationDefinition, Value, Value, RespStats), String> {
+pub fn generate(schema: &Schema, operation_text: &str, tape: Vec<u16>, unique_ids: bool) -> Result<(OperationDefinition, Value, Value, RespStats), String> {
     let doc = refgql::parse_executable(operation_text).map_err(|e| format!("operation does not parse: {e:?}"))?;
     let op = doc
         .definitions
@@ -350,6 +358,7 @@ pub fn generate(schema: &Schema, operation_text: &str, tape: Vec<u16>) -> Result
         })
         .ok_or("no operation in the document")?;
     let mut w = World::new(schema, tape);
+    w.unique_ids = unique_ids;
     w.gen_variables(&op);
     let data = w.respond(&op)?;
     Ok((op, data, w.variables(), w.stats))
